@@ -240,3 +240,33 @@ fn rtcp_roundtrip(profile: SrtpProfile) {
     kani::cover!(idx == 77, "reached");
     leak(pkt); leak(orig); leak(tx); leak(rx);
 }
+
+// @h name=vc04_session_eviction tier=quick timeout=1200
+// @fn SrtpSession::evict_stale_rx, SrtpSession::evict_stale_tx
+// @stub std::time::Instant::now -> fixed instant (t = 1000 s)
+// @bound receive-side table above the (lowered) high-water mark with three contexts: two used at t (symbolic choice: or 59 s earlier) and one idle for 61 s; eviction triggered by a packet for one of the live SSRCs; rollover state of the live contexts symbolic
+// @oracle exactly the idle context is evicted; every context used within the inactivity threshold survives with its rollover counter and sequence state (losing it would make valid packets of a wrapped stream fail to authenticate); the SSRC being processed is never evicted (seeded change C04-B reversed the predicate)
+#[kani::proof]
+#[kani::unwind(24)]
+#[kani::stub(std::time::Instant::now, now_stub)]
+fn vc04_session_eviction() {
+    let key = [7u8; 16]; let salt = [9u8; 14];
+    let km = || SrtpKeyingMaterial { master_key: key.to_vec(), master_salt: salt.to_vec() };
+    let mut sess = SrtpSession::new(SrtpProfile::NullCipherHmac, km(), km()).unwrap();
+    let proto = SrtpContext::new(1, SrtpProfile::NullCipherHmac, km(), SrtpDirection::Receiver).unwrap();
+    let at = |secs: i64| -> std::time::Instant { unsafe { core::mem::transmute::<(i64, u32), std::time::Instant>((secs, 0)) } };
+    let roc: u32 = kani::any(); let last: u16 = kani::any();
+    let recent: i64 = if kani::any() { 1000 } else { 941 };
+    let mut a = proto.clone(); a.ssrc = 1; a.rollover_counter = roc; a.last_sequence = Some(last); a.last_used = at(recent);
+    let mut b = proto.clone(); b.ssrc = 2; b.rollover_counter = roc; b.last_sequence = Some(last); b.last_used = at(1000);
+    let mut c = proto.clone(); c.ssrc = 3; c.last_used = at(939);
+    sess.rx_contexts.insert(1, a); sess.rx_contexts.insert(2, b); sess.rx_contexts.insert(3, c);
+    sess.evict_stale_rx(2);
+    assert!(sess.rx_contexts.contains_key(&2), "the SSRC being processed was evicted");
+    assert!(sess.rx_contexts.contains_key(&1), "a context used within the inactivity threshold was evicted");
+    assert!(!sess.rx_contexts.contains_key(&3), "an idle context above the high-water mark was not evicted");
+    let k = sess.rx_contexts.get(&1).unwrap();
+    assert!(k.rollover_counter == roc && k.last_sequence == Some(last), "rollover state of a surviving context changed");
+    kani::cover!(recent == 941, "59 s idle: kept");
+    leak(sess); leak(proto);
+}
